@@ -39,6 +39,12 @@ CYCLES = {
     "select-abandon": "(let [a (ev/chan) b (ev/chan)] (ev/spawn (ev/give b 1)) (ev/select a b))",
     "lock-cycle": "(let [l (ev/lock)] (ev/acquire-lock l) (ev/release-lock l))",
     "marshal-fiber": "(let [f (fiber/new (fn [] (yield 1) 2))] (resume f) (unmarshal (marshal f)))",
+    # a child that is still running when its handle is finalised: the finaliser kills and reaps it
+    "spawn-drop-running": "(do (os/spawn [\"sim-child\" \"s100000\"] :p) (gccollect) nil)",
+    # an ev/thread wait cut by a deadline in a task that ends before the thread does: the task fiber stays pinned only
+    # until the thread reports back
+    "thread-wait-cut-task-ends": "(do (ev/spawn (protect (ev/with-deadline 0.001 (ev/thread (fn [&] (ev/sleep 0.004)))))) (ev/sleep 0.009))",
+    "thread-wait-cancelled": "(let [f (ev/spawn (protect (ev/thread (fn [&] (ev/sleep 0.003)))))] (ev/sleep 0.001) (ev/cancel f :stop) (ev/sleep 0.006))",
     "to-file-less": "(let [[r w] (os/pipe)] (ev/write w (string/repeat \"x\" 5000)) (:close w) (ev/read r :all) (:close r))",
 }
 # counters that must not grow at all between N1 and N2 cycles, and those with a constant allowance
@@ -79,6 +85,9 @@ class C20(Driver):
                 k = r.choice(["sleep", "thread", "thread-n", "proc", "deadline-cut", "read-timeout", "chan-pair", "pipe-pair",
                               "cancel-me", "gather"])
                 st = {"k": k, "ms": r.choice([0, 1, 2, 3, 5, 8, 13])}
+                if r.random() < 0.04:
+                    # many threads finish while this thread is not in its loop: their completions arrive in one burst
+                    st = {"k": "thread-burst", "ms": r.choice([1, 3]), "n": r.choice([17, 33, 65, 70, 129, 200])}
                 if k == "proc":
                     st["code"] = r.choice([0, 1, 9])
                 if k in ("chan-pair", "pipe-pair"):
@@ -141,6 +150,9 @@ class C20(Driver):
                     body = "(ev/thread (fn [&] (ev/sleep %s) (sim/ev :tdone %d %d)))" % (sec, T, k)
                 elif kind == "thread-n":
                     body = "(ev/thread (fn [&] (ev/sleep %s) (sim/ev :tdone %d %d)) nil :n)" % (sec, T, k)
+                elif kind == "thread-burst":
+                    body = ("(do (repeat %d (ev/thread (fn [&] (ev/sleep %s)) nil :n)) (os/sleep %s) (ev/sleep 0.001))"
+                            % (st["n"], sec, (ms + 5) / 1000.0))
                 elif kind == "proc":
                     body = "(sim/ev :exit %d %d (os/proc-wait (os/spawn [\"sim-child\" \"s%d\" \"x%d\"] :p)))" % (T, k, ms, st["code"])
                 elif kind == "deadline-cut":
